@@ -248,6 +248,7 @@ class T:
         self.ieee_div = False  # model x/0 on symbolic reals as IEEE nan / inf (default: unspecified real, A-FP)
         self.pure = set()
         self.finite = None  # set-level tasks: {"N": z3 Int, "replay": builder} enables candidate search + replay
+        self.clause_filter = None  # compiled regex: run only matching clauses (task used as a dependency of another property)
 
     # ---- inputs ----------------------------------------------------------
     def inp(self, name, desc):
@@ -296,6 +297,10 @@ class T:
         with self.ctx:
             ex.depth = 0
             cls = ClassRef(fref.module, fref.cls) if fref.cls is not None else None
+            args = list(args)
+            decos = [getattr(d, "id", getattr(d, "attr", None)) for d in getattr(fref.node, "decorator_list", [])]
+            if cls is not None and "classmethod" in decos and args and args[0] is None:
+                args[0] = cls  # contracts pass None for `cls`: hand the class itself to the body (helpers called through cls.)
             res = ex.inline(fref.node, fref.module, fref, cls, None, list(args), kwargs, st, self_val, None)
         paths = []
         npre = len(self.pre)
@@ -320,15 +325,28 @@ class T:
     def prove(self, clause, goal, assumptions=(), kind="ensures", replay=None, timeout_ms=None, use_pre=True,
               tactic=None):
         """pre /\\ facts /\\ assumptions => goal."""
+        if self.clause_filter is not None and not self.clause_filter.search(clause):
+            return None  # this task runs as a dependency of another property: only the clauses that property consumes
         if isinstance(goal, bool):
             goal = z3.BoolVal(goal)
         base = (list(self.pre) if use_pre else []) + list(assumptions)
         asm = base + relevant_facts(self.ctx.facts, base + [goal])
-        res = solve.check_valid(asm, goal, timeout_ms or self.timeout_ms, tactic=tactic)
+        budget = timeout_ms or self.timeout_ms
+        res = solve.check_valid(asm, goal, budget, tactic=tactic)
+        if res["status"] == "unknown" and budget < 60000 and "timeout" in str(res.get("detail", "")):
+            # a verdict must not flip with machine load: one retry with a four-fold budget before giving up
+            res2 = solve.check_valid(asm, goal, 4 * budget, tactic=tactic)
+            if res2["status"] != "unknown":
+                res2["backend"] = "%s (retry with %d ms)" % (res2.get("backend"), 4 * budget)
+                res = res2
         extra = {}
-        if res["status"] == "unknown" and self.finite is not None:
+        big_model = res if res["status"] == "failed" else None
+        if (res["status"] == "unknown" or (res["status"] == "failed" and self.finite is not None and self.finite.get("replay"))) and self.finite is not None:
+            # unknown: look for a small counter-model;  failed: the solver's own model of a quantified set-level query is
+            # usually huge (thousands of designs) and cannot be replayed, so a small one is searched for the replay
             from . import finite
 
+            ok = False
             for size in (1, 2, 3):
                 found = finite.search(asm, goal, self.finite.get("N"), sizes=(size,))
                 if found is None:
@@ -344,6 +362,8 @@ class T:
                 ok, _ = run_replay(rp)
                 if ok:
                     break
+            if big_model is not None and not ok:
+                res = big_model   # the solver's own counter-model stands; no small replayable instance was confirmed
         if res["status"] == "failed":
             extra["replay"] = self._make_replay(clause, res, replay)
         if len(self.samples) < 3:
@@ -717,12 +737,15 @@ def relevant_facts(facts, seeds):
     return out
 
 
-def run_task(full_name, tier, timeout_ms):
+def run_task(full_name, tier, timeout_ms, clause_filter=None):
     """Executed in a worker process. Returns a plain dict."""
     V.IEEE_DIV[0] = False
     info = TASKS[full_name]
     t0 = time.time()
     t = T(info["prop"], info["name"], tier, timeout_ms)
+    if clause_filter:
+        import re
+        t.clause_filter = re.compile(clause_filter)
     out = {"task": full_name, "prop": info["prop"], "results": [], "functions": {}, "lib_used": [],
            "trusted": [], "status": "ok", "samples": []}
     try:
